@@ -182,12 +182,19 @@ Section Num.
   Qed.
 
   (* ---------- scalar int *)
-  Theorem int_roundtrip c z ws : (Z.abs z < B4300)%Z ->
-    as_words fm (CInt c) (PNum (NInt z)) = Ok ws -> in_bounds (vmin c) (vmax c) (NInt z) ->
-    from_words pe (CInt c) ws = Ok (PNum (NInt z)).
+  (* number_converters_base.as_words checks value_min / value_max before formatting *)
+  Lemma int_as_words_inv c z ws : as_words fm (CInt c) (PNum (NInt z)) = Ok ws ->
+    in_bounds (vmin c) (vmax c) (NInt z) /\ exists s, fmt_d (NInt z) = Ok s /\ ws = [uw s].
   Proof.
-    intros Hz H Hb. cbn [as_words number_conv_as_words value_as_str] in H.
-    apply bind_ok in H as (s & Hs & H). inversion H; subst ws. clear H.
+    intro H. cbn [as_words number_conv_as_words value_as_str] in H.
+    apply bind_ok in H as (u & Hc & H). apply check_value_bounds in Hc. split; [exact Hc|].
+    apply bind_ok in H as (s & Hs & H). inversion H; subst ws. eauto.
+  Qed.
+
+  Theorem int_roundtrip c z ws : (Z.abs z < B4300)%Z ->
+    as_words fm (CInt c) (PNum (NInt z)) = Ok ws -> from_words pe (CInt c) ws = Ok (PNum (NInt z)).
+  Proof.
+    intros Hz H. destruct (int_as_words_inv c z ws H) as [Hb [s [Hs ->]]].
     destruct (fmt_d_int_roundtrip z s Hz Hs) as [-> _].
     cbn [from_words]. unfold number_conv_from_words, x_from_words, number_from_words.
     rewrite str_from_words_int, (nfvs_int z _ Hz). cbn [bind x_from_number int_from_number].
